@@ -4,6 +4,7 @@ package main
 // loops cut at their invariants, defers, returns.
 
 import (
+	"golang.org/x/tools/go/types/typeutil"
 	"fmt"
 	"go/ast"
 	"go/token"
@@ -773,7 +774,81 @@ func (fc *FnCtx) havocLoop(st *State, ls *LoopSpec, nodes ...ast.Node) *State {
 	for _, m := range ls.Modifies {
 		fc.havocModifies(h, st, m, nil)
 	}
+	// a Cond.Wait directly in the loop: while this goroutine waited, other goroutines may have changed everything the
+	// monitor protects - at an arbitrary iteration the loop head sees such a state (no invariant is assumed for it here:
+	// the loop's own invariant has to say what holds)
+	if waitsDirectly(fc, nodes...) {
+		if mi := fc.condOwnerQuiet(h); mi != nil {
+			fc.acquireHavoc(h, mi, false)
+		} else {
+			fc.havocAllHeap(h)
+		}
+	}
+	// cs(): at an arbitrary iteration the last critical section may have begun inside an earlier iteration (Cond.Wait
+	// re-acquires the lock, Lock inside the body). The snapshot cs() reads must then be arbitrary too - related to the
+	// loop-head state only by what the invariant says (`x == cs(x)`) -, not the snapshot taken before the loop.
+	if st.csSnap != nil && resetsCS(nodes...) {
+		snap := st.csSnap.clone()
+		for k, v := range st.heap { // everything the loop or the code since the snapshot may have changed
+			if snap.heap[k] != v || h.heap[k] != v {
+				fc.heapHavoc(snap, k)
+			}
+		}
+		for k := range h.heap {
+			if _, ok := st.heap[k]; !ok {
+				fc.heapHavoc(snap, k)
+			}
+		}
+		for v, hv := range h.vars {
+			if sv, ok := snap.vars[v]; !ok || sv.T != hv.T || st.vars[v].T != hv.T {
+				nv := fc.fresh(v.Name()+"$cs", fc.sortOf(hv.Ty))
+				snap.vars[v] = Val{T: nv, Ty: hv.Ty}
+			}
+		}
+		h.csSnap = snap
+	}
 	return h
+}
+
+// waitsDirectly: the nodes contain a call of (*sync.Cond).Wait.
+func waitsDirectly(fc *FnCtx, nodes ...ast.Node) bool {
+	found := false
+	for _, n := range nodes {
+		if n == nil {
+			continue
+		}
+		ast.Inspect(n, func(x ast.Node) bool {
+			if c, ok := x.(*ast.CallExpr); ok {
+				if callee := typeutil.StaticCallee(fc.info(), c); callee != nil && callee.FullName() == "(*sync.Cond).Wait" {
+					found = true
+				}
+			}
+			return !found
+		})
+	}
+	return found
+}
+
+// resetsCS: the nodes contain a call that starts a new critical section (Lock/RLock, Cond.Wait).
+func resetsCS(nodes ...ast.Node) bool {
+	found := false
+	for _, n := range nodes {
+		if n == nil {
+			continue
+		}
+		ast.Inspect(n, func(x ast.Node) bool {
+			if c, ok := x.(*ast.CallExpr); ok {
+				if sel, ok := c.Fun.(*ast.SelectorExpr); ok {
+					switch sel.Sel.Name {
+					case "Wait", "Lock", "RLock":
+						found = true
+					}
+				}
+			}
+			return !found
+		})
+	}
+	return found
 }
 
 func (fc *FnCtx) havocTarget(h *State, mt modTarget) {
